@@ -540,6 +540,6 @@ pub fn run_history<V: Visitor>(h: &History, force_fault: bool, v: &mut V) -> Res
         FamId::Libsecp => go!(secp256k1::SecretKey),
         FamId::Ed => go!(ed25519_dalek::SigningKey),
         FamId::CombinedSecp | FamId::CombinedEd => go!(enr::CombinedKey),
-        FamId::Var => go!(VarKey),
+        FamId::Var | FamId::Wide => go!(VarKey),
     }
 }
